@@ -177,7 +177,7 @@ example : (runAllD (cD false) dD [.op none none .iterFull, .disk (.rewrite 1 [13
        (.bool true, true)] := by
   decide
 
-/-! ### documented outcomes only?  Not with a stale handle (D19e), not with a seek fault in `iter_pieces` (D19d) -/
+/-! ### documented outcomes only?  Not with a stale handle (D19e) -/
 
 /-- "Every error answer of a fault-free history is one of the documented errors (ValueError,
     ReadError, VerifyFileSizeError)": FALSE for the code as it is (since 685c3fc the TypeError of
@@ -238,27 +238,19 @@ example : freshAllD (cD false) dD [.op none none .iterFull, .disk (.unlink 0), .
     = [.items [⟨some [1, 2, 3], 0, []⟩, ⟨some [4, 5, 6], 0, []⟩, ⟨some [7, 8], 0, []⟩], .none,
        .err .readNoent, .none] := by decide
 
-/-- "A transient OSError from `seek()` / `read()` surfaces as ReadError, never as a raw OSError":
-    FALSE for the code as it is. -/
-def C19_fault_is_read_error_full : Prop :=
-  ∀ ss : List (Step Nat Nat), ∀ r ∈ runAllD (cD false) dD ss {}, r.out ≠ .err .osError
-
-/-- `fh.seek(skip_bytes)` of `_iter_from_file_handle` stands before the try block: a seek fault
-    inside `iter_pieces()` escapes as OSError (finding D19d). -/
-theorem C19_fault_is_read_error_counterexample : ¬ C19_fault_is_read_error_full := by
-  intro h
-  have := h [.op none (some ⟨1, true⟩) .iterFull]
-  revert this
-  decide
-
-/-- … and that is the only way: read faults anywhere, and seek faults inside `get_piece` /
-    `get_piece_hash` / `verify_piece`, never produce a raw OSError (any torrent, disk, object). -/
-theorem C19_fault_is_read_error_partial [BEq δ] [Inhabited α] (c : Cfg α δ)
-    (hg : ∀ n, c.geom n ≠ .error .osError) (d : Disk α) (arg : Option Nat) (fault : Option Fault)
-    (op : Handles.Op) (o : Obj)
-    (hf : (∀ f, fault = some f → f.seek = false) ∨ (op ≠ .iterFull ∧ ∀ k, op ≠ .iterAbandon k)) :
-    (run c d arg fault op o).out ≠ .err .osError :=
-  run_no_osError c hg d arg fault op o hf
+/-- Every transient OSError — from the first `seek()` or the first `read()` on any file, inside any
+    reading operation (`iter_pieces` complete or abandoned, `get_piece`, `get_piece_hash`,
+    `verify_piece`), on any torrent, disk and object — surfaces as ReadError; or the operation never
+    gets to the faulty call, and then it answers and leaves the object exactly as without the fault.
+    (Before ac0b377 the `fh.seek(skip_bytes)` of `_iter_from_file_handle` stood outside the try
+    block and the raw OSError escaped from `iter_pieces`: finding D19d.)  That the object stays
+    usable afterwards is `C19_disk_run_keeps_current` + `C19_history_disk_nohit`. -/
+theorem C19_fault_is_read_error [BEq δ] [Inhabited α] (c : Cfg α δ) (d : Disk α) (arg : Option Nat)
+    (f : Fault) (op : Handles.Op) (o : Obj) :
+    (run c d arg (some f) op o).out = .err .readOther ∨
+      ((run c d arg (some f) op o).out = (run c d arg none op o).out ∧
+       (run c d arg (some f) op o).obj = (run c d arg none op o).obj) :=
+  run_fault c d arg f op o
 
 /-! ### content paths and faults -/
 
@@ -277,13 +269,13 @@ example : (runAllD (cD false) dTwo [.op (some 0) none (.verifyPiece 1), .op (som
 
 /-- transient faults: the read of file 1 fails once inside `get_piece(0)` → ReadError; the handles
     of files 0 and 1 stay; the same call again answers as a fresh object; read fault in `iter_pieces`
-    and seek fault in `verify_piece` → ReadError; seek fault in `iter_pieces` → OSError (D19d);
+    and seek fault in `verify_piece` → ReadError; seek fault in `iter_pieces` → ReadError (regression, D19d);
     afterwards a complete iteration answers as a fresh object -/
 example : (runAllD (cD false) dD [.op none (some ⟨1, false⟩) (.getPiece 0), .op none none (.getPiece 0),
       .op none (some ⟨1, false⟩) .iterFull, .op none (some ⟨1, true⟩) (.verifyPiece 1),
       .op none (some ⟨2, true⟩) .iterFull, .op none none .iterFull] {}).map (fun r => (r.out, r.nopen, r.clean))
     = [(.err .readOther, 2, false), (.piece [1, 2, 3], 2, true), (.err .readOther, 2, false),
-       (.err .readOther, 2, false), (.err .osError, 3, false),
+       (.err .readOther, 2, false), (.err .readOther, 3, false),
        (.items [⟨some [1, 2, 3], 0, []⟩, ⟨some [4, 5, 6], 0, []⟩, ⟨some [7, 8], 0, []⟩], 3, true)] := by
   decide
 
